@@ -26,12 +26,16 @@ struct Cfg {
     early_window: f64,
     switch_freq: u64,
     seed: u64,
+    /// a recoverable density error at the first trajectory evaluation of this draw (divergence
+    /// exactly at / next to the warmup boundary)
+    fault_draw: Option<u64>,
 }
 
 fn key(c: &Cfg) -> String {
     format!(
-        "{:?}/tune{}/method{:?}/jitter{:?}/ssw{}/ew{}/sf{}/seed{}",
-        c.preset, c.num_tune, c.method, c.jitter, c.step_size_window, c.early_window, c.switch_freq, c.seed
+        "{:?}/tune{}/method{:?}/jitter{:?}/ssw{}/ew{}/sf{}/seed{}{}",
+        c.preset, c.num_tune, c.method, c.jitter, c.step_size_window, c.early_window, c.switch_freq, c.seed,
+        c.fault_draw.map(|d| format!("/divergence-in-draw{d}")).unwrap_or_default()
     )
 }
 
@@ -62,13 +66,33 @@ fn check_one(c: &Cfg, p: &mut Partial) {
         sigma: vec![0.5, 1.0, 3.0],
     };
     let n = (c.num_tune + c.num_draws) as usize;
-    let res = with_settings!(c.preset, &t, |s| run_chain(
+    if c.fault_draw.is_some() {
+        // one failing evaluation must end the trajectory (no smaller-step retry)
+        t.dynamic_step_size = Some(false);
+    }
+    let mut res = with_settings!(c.preset, &t, |s| run_chain(
         &s,
         Dens::new(target.clone()),
         c.seed,
         &[0.1, 0.2, -0.3],
         n
     ));
+    if let (Some(fd), RunEnd::Completed) = (c.fault_draw, &res.end) {
+        // evaluation index of the first evaluation of draw `fd` in the fault-free run
+        let at = if fd == 0 { res.n_eval_after_init } else { res.draws[fd as usize - 1].n_eval_after };
+        res = with_settings!(c.preset, &t, |s| run_chain(
+            &s,
+            Dens::with_faults(target.clone(), vec![(at, crate::common::models::FaultKind::Recoverable)]),
+            c.seed,
+            &[0.1, 0.2, -0.3],
+            n
+        ));
+        if matches!(res.end, RunEnd::Completed) && !res.draws[fd as usize].diverging {
+            p.count("boundary_faults_that_did_not_make_the_draw_diverge", 1);
+        } else {
+            p.count("runs_with_a_divergence_at_the_warmup_boundary", 1);
+        }
+    }
     p.evaluations += 1;
     if std::env::var("VERIF_VERBOSE").is_ok() {
         eprintln!("cfg {} {:.2}s", key(c), t0.elapsed().as_secs_f64());
@@ -230,10 +254,24 @@ pub fn run(tier: Tier, _replay: Option<String>) -> i32 {
                                 early_window: ew,
                                 switch_freq: sf,
                                 seed,
+                                fault_draw: None,
                             });
                         }
                     }
                 }
+            }
+        }
+    }
+    // a divergence in the last warmup draw, in the first posterior draw, and in the one after it
+    for preset in Preset::ALL {
+        for num_tune in [0u64, 1, 2, 5, 12, 30] {
+            for off in [-1i64, 0, 1] {
+                let fd = num_tune as i64 + off;
+                if fd < 0 {
+                    continue;
+                }
+                let method = if preset == Preset::FlowMclmc { Some(StepSizeAdaptMethod::Fixed(0.5)) } else { None };
+                cfgs.push(Cfg { preset, num_tune, num_draws: 5, method, jitter: None, step_size_window: 0.15, early_window: 0.3, switch_freq: 80, seed: 1, fault_draw: Some(fd as u64) });
             }
         }
     }
